@@ -286,11 +286,21 @@ WebSocketMsg WebSocket::receive()
 			len = _socket.read<unsigned short>();
 		}
 		else if (len == 127)
-			len = (int)_socket.read<Long>(); // what if length larger than int?
+		{
+			Long len64 = _socket.read<Long>();
+			len = (len64 < 0 || len64 > 0x7fffffff) ? -1 : (int)len64; // does not fit an int: reject
+		}
 
 		unsigned mask = 0;
 		if (masked)
 			_socket >> mask;
+
+		if (len < 0 || closed()) // absurd length, or the stream ended inside the frame header
+		{
+			_closed = true;
+			_socket.close();
+			return msg.fix();
+		}
 
 		buffer.resize(buffer.length() + len);
 		if (len > 0)
